@@ -83,6 +83,8 @@ const (
 	finProvider = "finalizer.managedresource.crossplane.io"
 
 	labelComposite = "crossplane.io/composite"
+	labelInUse     = "crossplane.io/in-use"
+	labelPick      = "c08.example.org/pick"
 	annResName     = "crossplane.io/composition-resource-name"
 
 	xrCtrl    = "composite/" + xrdName
@@ -308,7 +310,12 @@ type world struct {
 	lastRun               *verifsim.Run
 	inactiveInLockDeletes int
 	midRan, midExcluded   int
-	hashCache             map[uintptr]cachedHash
+
+	// Usage bookkeeping: the last using / used resource each Usage recorded in its resourceRefs
+	lastBy, lastOf map[verifsim.Key]verifsim.Key
+	// class counters (evidence labels)
+	usageUnresolvedAtDelete, usageDelRecUnresolved, usageDelRecUnresolvedFault, usageLabelMismatch int
+	hashCache                                                                                      map[uintptr]cachedHash
 }
 
 type worldSnap struct {
@@ -322,6 +329,15 @@ type worldSnap struct {
 	crdDeletes     int
 	effectiveStops int
 	faultsHit      int
+	lastBy, lastOf map[verifsim.Key]verifsim.Key
+}
+
+func copyKeyMap(m map[verifsim.Key]verifsim.Key) map[verifsim.Key]verifsim.Key {
+	out := make(map[verifsim.Key]verifsim.Key, len(m))
+	for k, v := range m {
+		out[k] = v
+	}
+	return out
 }
 
 func (w *world) snapshot() *worldSnap {
@@ -334,6 +350,7 @@ func (w *world) snapshot() *worldSnap {
 	for k, v := range w.ctrlFinRemoved {
 		s.ctrlFinRemoved[k] = v
 	}
+	s.lastBy, s.lastOf = copyKeyMap(w.lastBy), copyKeyMap(w.lastOf)
 	return s
 }
 
@@ -351,6 +368,7 @@ func (w *world) restore(s *worldSnap) {
 	for k, v := range s.ctrlFinRemoved {
 		w.ctrlFinRemoved[k] = v
 	}
+	w.lastBy, w.lastOf = copyKeyMap(s.lastBy), copyKeyMap(s.lastOf)
 }
 
 func xrdObject() *v1.CompositeResourceDefinition {
@@ -393,7 +411,7 @@ func (u universe) composition() *v1.Composition {
 func newWorld(u universe, rec *verifkit.Recorder) *world {
 	utilrand.Seed(u.Seed)
 	env := verifenv.NewXREnv()
-	w := &world{u: u, env: env, sim: env.Sim, rec: rec, xrNames: make([]string, u.Claims), claimCreated: make([]bool, u.Claims), ctrlFinRemoved: map[string]int{}}
+	w := &world{u: u, env: env, sim: env.Sim, rec: rec, xrNames: make([]string, u.Claims), claimCreated: make([]bool, u.Claims), ctrlFinRemoved: map[string]int{}, lastBy: map[verifsim.Key]verifsim.Key{}, lastOf: map[verifsim.Key]verifsim.Key{}}
 	w.eng = &fakeEngine{w: w, running: map[string]bool{}}
 	// XR and claim kinds are served only while their CRD object exists.
 	w.sim.Served = func(v *verifsim.View, gk schema.GroupKind) bool {
@@ -566,6 +584,7 @@ func (w *world) monitor(v *verifsim.View, wr *verifsim.Write) {
 	if !wr.Changed {
 		return
 	}
+	w.usageWrites(v, wr)
 	removed := removedFinalizers(wr.Before, wr.After)
 	if len(removed) == 0 {
 		return
@@ -616,24 +635,112 @@ func (w *world) monitor(v *verifsim.View, wr *verifsim.Write) {
 			v.Violate("(e) package revision %s lost its finalizer (write #%d by %s) while the Lock still lists it", wr.Key.Name, wr.Seq, wr.Actor)
 		}
 
-	// (f) composed Usage with `by` finalized => the using resource is gone.
+	// (f) composed Usage with `by` finalized => no using resource of it exists any more.
 	case wr.Key.GK() == usageGK && has(removed, finUsage):
-		if verifsim.Labels(wr.Before)[labelComposite] == "" {
-			return
+		if using := w.usingResources(v, wr.Key, wr.Before); len(using) > 0 {
+			v.Violate("(f) composed Usage %s lost its finalizer (write #%d by %s) while its using resource still exists: %s", wr.Key.Name, wr.Seq, wr.Actor, strings.Join(using, "; "))
 		}
-		by, _ := verifsim.Nested(wr.Before, "spec", "by").(map[string]any)
-		if by == nil {
-			return
+	}
+}
+
+// usingResources returns the live using resources of a composed Usage (label
+// crossplane.io/composite, spec.by set), each with the reason it counts as one;
+// nil for any other Usage. "Its using resource" is read off the Usage itself:
+//   - the object named by spec.by.resourceRef, if a name is recorded;
+//   - otherwise every object of spec.by's apiVersion/kind that spec.by.resourceSelector
+//     selects (matchLabels, and for matchControllerRef the same controller as the Usage) -
+//     the very candidates the resolver would record;
+//   - and, while no name is recorded and spec.by still names the same kind, the object whose
+//     name was last recorded there (a cleared reference does not make the user go away).
+func (w *world) usingResources(v *verifsim.View, key verifsim.Key, u verifsim.Obj) []string {
+	if u == nil || verifsim.Labels(u)[labelComposite] == "" {
+		return nil
+	}
+	by, _ := verifsim.Nested(u, "spec", "by").(map[string]any)
+	if by == nil {
+		return nil
+	}
+	gv, _ := schema.ParseGroupVersion(fmt.Sprint(by["apiVersion"]))
+	gk := schema.GroupKind{Group: gv.Group, Kind: fmt.Sprint(by["kind"])}
+	var out []string
+	if name, _ := verifsim.Nested(by, "resourceRef", "name").(string); name != "" {
+		k := verifsim.Key{Group: gk.Group, Kind: gk.Kind, Name: name}
+		if v.Get(k) != nil {
+			out = append(out, fmt.Sprintf("%s (spec.by.resourceRef)", k))
 		}
-		name, _ := verifsim.Nested(by, "resourceRef", "name").(string)
+		return out
+	}
+	seen := map[verifsim.Key]bool{}
+	if sel, ok := by["resourceSelector"].(map[string]any); ok {
+		want, _ := sel["matchLabels"].(map[string]any)
+		mcr, _ := sel["matchControllerRef"].(bool)
+		for _, k := range v.List(gk) {
+			o := v.Get(k)
+			match := true
+			for lk, lv := range want {
+				if verifsim.Labels(o)[lk] != fmt.Sprint(lv) {
+					match = false
+				}
+			}
+			if mcr && (verifsim.ControllerUID(o) == "" || verifsim.ControllerUID(o) != verifsim.ControllerUID(u)) {
+				match = false
+			}
+			if match {
+				seen[k] = true
+				out = append(out, fmt.Sprintf("%s (selected by the unresolved spec.by.resourceSelector)", k))
+			}
+		}
+	}
+	if last, ok := w.lastBy[key]; ok && last.GK() == gk && !seen[last] && v.Get(last) != nil {
+		out = append(out, fmt.Sprintf("%s (last recorded in spec.by.resourceRef, since cleared)", last))
+	}
+	return out
+}
+
+// usageWrites is the part of the monitor that runs on every effective write: it remembers the
+// last using resource a Usage recorded, and judges (f2): the Usage controller lifts the in-use
+// label of a used resource - the first step of finalizing a Usage - only when no composed Usage
+// of that resource still has a live using resource.
+func (w *world) usageWrites(v *verifsim.View, wr *verifsim.Write) {
+	if wr.Key.GK() == usageGK && wr.After != nil && !verifsim.Terminating(wr.Before) && verifsim.Terminating(wr.After) && verifsim.Labels(wr.After)[labelComposite] != "" {
+		if by, of := unresolvedSides(wr.After); by || of {
+			w.usageUnresolvedAtDelete++
+		}
+	}
+	if wr.Key.GK() == usageGK && wr.After != nil {
+		if by, ok := verifsim.Nested(wr.After, "spec", "by").(map[string]any); ok {
+			if name, _ := verifsim.Nested(by, "resourceRef", "name").(string); name != "" {
+				gv, _ := schema.ParseGroupVersion(fmt.Sprint(by["apiVersion"]))
+				w.lastBy[wr.Key] = verifsim.Key{Group: gv.Group, Kind: fmt.Sprint(by["kind"]), Name: name}
+			}
+		}
+		if of, ok := verifsim.Nested(wr.After, "spec", "of").(map[string]any); ok {
+			if name, _ := verifsim.Nested(of, "resourceRef", "name").(string); name != "" {
+				gv, _ := schema.ParseGroupVersion(fmt.Sprint(of["apiVersion"]))
+				w.lastOf[wr.Key] = verifsim.Key{Group: gv.Group, Kind: fmt.Sprint(of["kind"]), Name: name}
+			}
+		}
+	}
+	if wr.Actor != actorUsage || wr.Before == nil || wr.After == nil || verifsim.Labels(wr.Before)[labelInUse] == "" || verifsim.Labels(wr.After)[labelInUse] != "" {
+		return
+	}
+	for _, uk := range v.List(usageGK) {
+		u := v.Get(uk)
+		of, _ := verifsim.Nested(u, "spec", "of").(map[string]any)
+		gv, _ := schema.ParseGroupVersion(fmt.Sprint(of["apiVersion"]))
+		name, _ := verifsim.Nested(of, "resourceRef", "name").(string)
+		if gv.Group != wr.Key.Group || fmt.Sprint(of["kind"]) != wr.Key.Kind {
+			continue
+		}
 		if name == "" {
-			v.Violate("(f) composed Usage %s lost its finalizer (write #%d by %s) although its using resource was never resolved (spec.by has no resourceRef)", wr.Key.Name, wr.Seq, wr.Actor)
-			return
+			if last, ok := w.lastOf[uk]; !ok || last != wr.Key {
+				continue
+			}
+		} else if name != wr.Key.Name {
+			continue
 		}
-		gv, _ := schema.ParseGroupVersion(fmt.Sprint(by["apiVersion"]))
-		uk := verifsim.Key{Group: gv.Group, Kind: fmt.Sprint(by["kind"]), Name: name}
-		if v.Get(uk) != nil {
-			v.Violate("(f) composed Usage %s lost its finalizer (write #%d by %s) while its using resource %s still exists", wr.Key.Name, wr.Seq, wr.Actor, uk)
+		if using := w.usingResources(v, uk, u); len(using) > 0 {
+			v.Violate("(f2) the in-use label of used resource %s was removed (write #%d by %s) while composed Usage %s of it still has a live using resource: %s", wr.Key, wr.Seq, wr.Actor, uk.Name, strings.Join(using, "; "))
 		}
 	}
 }
@@ -950,7 +1057,16 @@ func (w *world) do(a act) string {
 		if len(ks) == 0 {
 			return "absent"
 		}
+		unresolved := w.usageClass(ks[0])
 		run := w.newRun(actorUsage, a)
+		defer func() {
+			if unresolved {
+				w.usageDelRecUnresolved++
+				if a.F != "" && a.K < run.N {
+					w.usageDelRecUnresolvedFault++
+				}
+			}
+		}()
 		r := usagectrl.NewReconciler(&fakeMgr{c: run.Client(), scheme: w.sim.Scheme}, usagectrl.WithRecorder(w.env.Recorder))
 		_, err := r.Reconcile(ctx, req("", ks[0].Name))
 		return w.outcome(run, a, err)
@@ -1028,6 +1144,72 @@ func (w *world) do(a act) string {
 		w.eng.running = map[string]bool{}
 		w.eng.calls = append(w.eng.calls, engineCall{Op: "ProcessRestart", Seq: w.sim.LogLen()})
 		return "ok"
+	case "unresolve-usage":
+		// A user clears the recorded reference(s) of the composed Usage so that the selector is resolved
+		// again (the usual way to force re-selection); with J=1 the `by` selector additionally asks for a
+		// label that the using resource does not carry (yet).
+		if !w.u.Usage || a.I >= w.u.Claims {
+			return "disabled"
+		}
+		ks := w.composedKeys(a.I, "usage")
+		if len(ks) == 0 {
+			return "absent"
+		}
+		u := verifsim.U(w.sim.Get(ks[0]))
+		n := 0
+		for _, side := range []string{"by", "of"} {
+			if a.Obj != side && a.Obj != "both" {
+				continue
+			}
+			m, _ := verifsim.Nested(u.Object, "spec", side).(map[string]any)
+			if m == nil {
+				continue
+			}
+			if _, ok := m["resourceRef"]; ok {
+				delete(m, "resourceRef")
+				n++
+			}
+			sel, _ := m["resourceSelector"].(map[string]any)
+			if sel == nil {
+				sel = map[string]any{"matchControllerRef": true}
+				m["resourceSelector"] = sel
+			}
+			if side == "by" && a.J == 1 {
+				if _, ok := sel["matchLabels"]; !ok {
+					n++
+				}
+				sel["matchLabels"] = map[string]any{labelPick: "yes"}
+			}
+		}
+		if n == 0 {
+			return "idle"
+		}
+		if err := w.sim.Client(actorUser).Update(ctx, u); err != nil {
+			return "refused: " + err.Error()
+		}
+		return "ok"
+	case "label-using": // the using resource gets the label the edited selector asks for
+		if !w.u.Usage || a.I >= w.u.Claims {
+			return "disabled"
+		}
+		n := 0
+		for _, k := range w.composedKeys(a.I, "r1") {
+			o := w.sim.Get(k)
+			if verifsim.Labels(o)[labelPick] != "" {
+				continue
+			}
+			u := verifsim.U(o)
+			l := u.GetLabels()
+			l[labelPick] = "yes"
+			u.SetLabels(l)
+			if err := w.sim.Client(actorUser).Update(ctx, u); err == nil {
+				n++
+			}
+		}
+		if n == 0 {
+			return "idle"
+		}
+		return "ok"
 	case "deactivate-rev": // the package manager (or a user) flips spec.desiredState to Inactive: a spec edit only
 		o := w.sim.Get(revKey)
 		if !w.u.Revision || o == nil || verifsim.Terminating(o) || verifsim.Nested(o, "spec", "desiredState") == string(pkgv1.PackageRevisionInactive) {
@@ -1051,6 +1233,39 @@ func (w *world) do(a act) string {
 		return "ok"
 	}
 	panic("c08: unknown action " + a.Op)
+}
+
+// unresolvedSides reports which selectors of a Usage have no recorded resourceRef.
+func unresolvedSides(u verifsim.Obj) (by, of bool) {
+	if m, ok := verifsim.Nested(u, "spec", "by").(map[string]any); ok {
+		n, _ := verifsim.Nested(m, "resourceRef", "name").(string)
+		by = n == ""
+	}
+	n, _ := verifsim.Nested(u, "spec", "of", "resourceRef", "name").(string)
+	return by, n == ""
+}
+
+// usageClass: is this a deletion reconcile of a composed, finalized Usage with an unresolved selector
+// while a using resource still exists (the class the (f) clause is hardest on)?
+func (w *world) usageClass(k verifsim.Key) bool {
+	u := w.sim.Get(k)
+	if u == nil || !verifsim.Terminating(u) || !has(verifsim.Finalizers(u), finUsage) {
+		return false
+	}
+	by, of := unresolvedSides(u)
+	if !by && !of {
+		return false
+	}
+	live := false
+	w.sim.With(func(v *verifsim.View) {
+		for _, r := range w.usingResources(v, k, u) {
+			live = true
+			if strings.Contains(r, "since cleared") { // the edited selector does not select the user (yet)
+				w.usageLabelMismatch++
+			}
+		}
+	})
+	return live
 }
 
 func (w *world) newRun(actor string, a act) *verifsim.Run {
